@@ -1495,6 +1495,8 @@ def into_iter(vm, v, by_ref=False):
         return Iter('range', cur=v.fields[0], end=v.fields[1], incl=True, done=False)
     if isinstance(v, Adt) and v.ty == 'Option':
         return Iter('list', items=(v.fields[0],) if v.variant == 1 else (), pos=0)
+    if isinstance(v, Adt) and (v.ty, 'Iterator', 'next') in vm.prog.impl_methods:
+        return v      # std's blanket `impl<I: Iterator> IntoIterator for I`: a crate iterator is its own IntoIter
     raise Unmodelled("into_iter on %r" % (v,))
 
 
@@ -2209,6 +2211,38 @@ def _chan_is_empty(vm, cal, args):
 @reg(('Receiver', None, 'len'))
 def _chan_len(vm, cal, args):
     return usize(len(vm.deref(_chan_q(vm, args[0])).items))
+
+
+# ===================================================================== Condvar: a blocked waiter is a scheduling point
+# wait_while(guard, cond): while cond(&mut *guard) holds the waiter sleeps; the spec's scheduler runs the other threads
+# (vm.notes['sched'].on_block with the mutex cell); if the condition still holds when nobody else can run, the wait never
+# ends: reported as a panic "deadlock" (the query decides what that means)
+@reg(('Condvar', None, 'new'))
+def _condvar_new(vm, cal, args):
+    return Opaque('Condvar', vm.fresh_tag('condvar'))
+
+
+@reg(('Condvar', None, 'notify_one'), ('Condvar', None, 'notify_all'))
+def _condvar_notify(vm, cal, args):
+    return ()
+
+
+@reg(('Condvar', None, 'wait_while'))
+def _condvar_wait_while(vm, cal, args):
+    guard, cond = args[1], args[2]
+    for attempt in range(2):
+        c = vm.call_value(cond, [guard])
+        if z3.is_expr(c):
+            holds = vm.branch(c)
+        else:
+            holds = bool(c)
+        if not holds:
+            return OK(guard)
+        if attempt == 0:
+            s = vm.notes.get('sched')
+            if s is not None:
+                s.on_block(vm, as_ref(guard).cell)
+    raise Panic("deadlock: Condvar::wait_while condition still holds when no other thread can run")
 
 
 @reg(('JoinHandle', None, 'join'))
